@@ -603,7 +603,8 @@ namespace avel {
 
     [[nodiscard]]
     AVEL_FINL vec1x32f fdim(vec1x32f a, vec1x32f b) {
-        return avel::max(a - b, vec1x32f{0.0f});
+        //a - b is NaN for equal infinities; <cmath>'s fdim returns +0 there
+        return blend(a <= b, vec1x32f{0.0f}, a - b);
     }
 
     [[nodiscard]]
